@@ -438,58 +438,46 @@ func checkSetProtocol(r *Reporter, p *Prog) {
 		}
 		return "", false
 	}
-	want := map[string]LockMode{"Add": ModeR, "AddAll": ModeR, "Delete": ModeR, "DeleteAll": ModeR, "Replace": ModeW, "apply": ModeW, "Apply": ModeW, "Compute": ModeW}
-	nMut := 0
-	for _, fd := range p.Methods(pkg, "set") {
-		if fd.Body == nil {
+	// The underlying ordered map synchronises single operations itself; applyMutex orders them against
+	// the whole-set operations: every mutation of the map made from a set method (directly, through
+	// a helper, or in a closure a helper returns) happens with applyMutex held at least shared, and
+	// apply - the body of the whole-set operations - is entered with it held exclusively. Helpers that
+	// rely on their caller's lock are inferred (rules_lock.go), so the rule does not depend on which
+	// method a mutation is written in.
+	checkGuards(r, p, "set/apply-mutex-protocol", []GuardRow{{
+		Pkg: pkg, Type: "set", Mutex: "applyMutex", Fields: []string{"readableSet"},
+		Mutators:  map[string][]string{"readableSet": {"Set", "Delete", "Clear"}},
+		WOnly:     true,
+		WriteMode: ModeR,
+		CH:        map[string]LockMode{"apply": ModeW},
+	}})
+	// the whole-set operations take the mutex exclusively (a shared holder would interleave with
+	// single-element mutations between the evaluation and the application of the change)
+	for _, m := range []string{"Replace", "Apply", "Compute"} {
+		fd := p.FuncDecl(pkg, "set", m)
+		fkey := "ds.set." + m
+		if fd == nil {
+			r.Unresolved("set/apply-mutex-protocol", fkey, "method not found")
 			continue
 		}
-		fkey := funcKey(pkg, fd)
-		recvObj := info.Defs[fd.Recv.List[0].Names[0]]
-		recvPath := fmt.Sprintf("%s@%d", recvObj.Name(), recvObj.Pos())
-		entry := LockSet{}
-		if fd.Name.Name == "apply" {
-			entry = entry.with(recvPath+".applyMutex", ModeW)
+		f := newFuncCFG(p, info, fd.Body, fkey)
+		nW, nR := 0, 0
+		for _, c := range f.Calls(func(c *ast.CallExpr) bool {
+			op, path := lockOp(info, c)
+			return op != "" && strings.HasSuffix(path, ".applyMutex")
+		}) {
+			switch op, _ := lockOp(info, c); op {
+			case "Lock":
+				nW++
+			case "RLock":
+				nR++
+			}
 		}
-		seen := map[ast.Node]bool{}
-		var bad []string
-		n := 0
-		AnalyzeLocks(fd.Body, entry, &FlowOpts{Info: info}, func(nd ast.Node, stack []ast.Node, held LockSet) {
-			c, ok := nd.(*ast.CallExpr)
-			if !ok || seen[c] {
-				return
-			}
-			name := ""
-			need := want[fd.Name.Name]
-			if m, isMut := isMutation(c); isMut {
-				name = "OrderedMap." + m
-			} else if se, ok := ast.Unparen(c.Fun).(*ast.SelectorExpr); ok && se.Sel.Name == "apply" && isRecvIdent(info, fd, se.X) {
-				name = "apply"
-				need = ModeW
-			} else {
-				return
-			}
-			seen[c] = true
-			n++
-			if need == ModeNone {
-				need = ModeR
-			}
-			if held[recvPath+".applyMutex"] < need {
-				bad = append(bad, fmt.Sprintf("%s: %s called with applyMutex held %s, needs %s (held: %s)", p.posStr(c.Pos()), name, held[recvPath+".applyMutex"], need, held))
-			}
-		})
-		nMut += n
-		if n == 0 {
-			continue
-		}
-		if len(bad) > 0 {
-			r.Fail("set/apply-mutex-protocol", fkey, p.posStr(fd.Pos()), bad[0], bad...)
+		if nW == 1 && nR == 0 {
+			r.Pass("set/apply-mutex-protocol", fkey+" exclusive", p.posStr(fd.Pos()), "takes applyMutex exclusively, once")
 		} else {
-			r.Pass("set/apply-mutex-protocol", fkey, p.posStr(fd.Pos()), fmt.Sprintf("%d mutation(s) of the underlying map under applyMutex (%s)", n, want[fd.Name.Name]))
+			r.Fail("set/apply-mutex-protocol", fkey+" exclusive", p.posStr(fd.Pos()), fmt.Sprintf("a whole-set operation must take applyMutex exclusively, once (found %d Lock, %d RLock): single-element mutations interleave between evaluating and applying the change", nW, nR))
 		}
-	}
-	if nMut < 7 {
-		r.Fail("set/apply-mutex-protocol", "ds.set", "-", fmt.Sprintf("expected at least 7 mutation sites in set methods, found %d", nMut))
 	}
 	// Apply / Compute go through apply under W (covered above); exact diffs:
 	type diffRow struct {
@@ -507,9 +495,31 @@ func checkSetProtocol(r *Reporter, p *Prog) {
 		ast.Inspect(fd.Body, func(n ast.Node) bool {
 			lit, ok := n.(*ast.FuncLit)
 			if !ok {
-				return true
+				// a callback produced by a closure factory and handed over directly
+				// (`Range(s.collector(result))`): the literal the factory returns
+				if c, isCall := n.(*ast.CallExpr); isCall {
+					if _, isSig := info.TypeOf(c).Underlying().(*types.Signature); isSig {
+						lit, _ = closureFactory(p, info, c)
+					}
+				}
+				if lit == nil {
+					return true
+				}
 			}
 			lf := newFuncCFG(p, info, lit.Body, key+"$callback")
+			// is e the callback's own element parameter, possibly handed down to a helper or to a
+			// closure that came out of a factory
+			isElem := func(e ast.Expr, pt Point, lparams map[types.Object]bool) bool {
+				if lparams[objOfIdent(info, e)] {
+					return true
+				}
+				for po := range lparams {
+					if po != nil && lf.IsVar(e, pt, po) {
+						return true
+					}
+				}
+				return false
+			}
 			lparams := map[types.Object]bool{}
 			for _, fl := range lit.Type.Params.List {
 				for _, nm := range fl.Names {
@@ -558,14 +568,18 @@ func checkSetProtocol(r *Reporter, p *Prog) {
 				if c == nil {
 					return
 				}
-				if m, isMut := isMutation(c); isMut && m == "Set" && idx == 1 && len(c.Args) > 0 && lparams[objOfIdent(info, c.Args[0])] {
+				cpt, found := lf.PointOf(c)
+				if !found {
+					cpt = pt
+				}
+				if m, isMut := isMutation(c); isMut && m == "Set" && idx == 1 && len(c.Args) > 0 && isElem(c.Args[0], cpt, lparams) {
 					return true, false
 				}
-				if m, isMut := isMutation(c); isMut && m == "Delete" && idx == 0 && len(c.Args) == 1 && lparams[objOfIdent(info, c.Args[0])] {
+				if m, isMut := isMutation(c); isMut && m == "Delete" && idx == 0 && len(c.Args) == 1 && isElem(c.Args[0], cpt, lparams) {
 					return false, true
 				}
 				// s.Delete(element) of the set itself
-				if se, ok := ast.Unparen(c.Fun).(*ast.SelectorExpr); ok && se.Sel.Name == "Delete" && idx == 0 && len(c.Args) == 1 && lparams[objOfIdent(info, c.Args[0])] {
+				if se, ok := ast.Unparen(c.Fun).(*ast.SelectorExpr); ok && se.Sel.Name == "Delete" && idx == 0 && len(c.Args) == 1 && isElem(c.Args[0], cpt, lparams) {
 					return false, true
 				}
 				return
@@ -583,11 +597,15 @@ func checkSetProtocol(r *Reporter, p *Prog) {
 			lic := append(append([]Edge{}, setFalse...), delTrue...)
 			for _, pt := range lf.Find(func(n ast.Node) bool {
 				c, ok := n.(*ast.CallExpr)
-				if !ok || len(c.Args) != 1 || !lparams[objOfIdent(info, c.Args[0])] {
+				if !ok || len(c.Args) != 1 {
 					return false
 				}
 				se, ok := ast.Unparen(c.Fun).(*ast.SelectorExpr)
 				if !ok || se.Sel.Name != "Add" {
+					return false
+				}
+				cpt, found := lf.PointOf(c)
+				if !found || !isElem(c.Args[0], cpt, lparams) {
 					return false
 				}
 				o := objOfIdent(info, se.X)
